@@ -117,16 +117,71 @@ package shimagent
 //@   requires c != nil
 //@   ensures result == c.Blob
 
-//@ # filter: purge of expired / orphan certificates (its own contract is refined under C07)
+//@ # ---------------------------------------------------------------- C07: the purge
+//@ # filter and its helpers are verified as one body: filterOrphanCerts, filterExpiredCerts, the remover adapter and the two
+//@ # closures are executed in place (flag inline), with the loop invariants below; outer(e) names e in the inlining caller's frame.
+//@ ghost func keysWF(ks []*agent.Key) bool = forall(j, 0 <= j && j < len(ks), ks[j] != nil && akBlob(ks[j]) == blobid(asKey(ks[j])), ks[j])
+//@ ghost func srvOK(s *Server) bool = s != nil && inv(s) && wheld(s) && cacheOff(s)
 //@ func (*Server).filter(s)
 //@   flag logged
 //@   requires s != nil && inv(s) && wheld(s) && inv2(s)
 //@   modifies mapof(s.certs), mapof(s.upstreamSSHCACertCache)
+//@   let l0 = old(calls(Agent.List))
 //@   ensures wheld(s) && inv(s)
 //@   ensures err != nil ==> (inMemoryCerts == nil && inAgentKeys == nil)
 //@   ensures err == nil ==> inMemoryCerts == s.certs
 //@   ensures [listed-keys-are-well-formed] err == nil ==> forall(j, 0 <= j && j < len(inAgentKeys), inAgentKeys[j] != nil && akBlob(inAgentKeys[j]) == blobid(asKey(inAgentKeys[j])))
-//@   ensures [in-memory-entries-are-objects] certsNonNil(s) && cacheOff(s)
+//@   ensures [in-memory-entries-are-objects] inv2(s)
+//@   ensures [one-listing-of-the-underlying-agent] calls(Agent.List) == l0 + 1 && arg(Agent.List, l0, 0) == s.agent
+//@   ensures [listing-failure-surfaces] ret(Agent.List, l0, 1) != nil ==> err == ret(Agent.List, l0, 1)
+//@   ensures [the-list-handed-back-is-what-is-left-of-the-listing] err == nil ==> (ret(Agent.List, l0, 1) == nil &&
+//@     (inAgentKeys == nil || (arr(inAgentKeys) == arr(ret(Agent.List, l0, 0)) && off(inAgentKeys) == off(ret(Agent.List, l0, 0)))) && len(inAgentKeys) <= len(ret(Agent.List, l0, 0)))
+//@   ensures [tables-only-shrink] forall(h#bytes, h in dom(s.certs), old(h in dom(s.certs)) && s.certs[h] == old(s.certs[h]))
+
+//@ func (remover).remove(r, key)
+//@   flag inline
+
+//@ func filter$1(pub)
+//@   flag inline
+//@   loop 1:
+//@     flag keepquant
+//@     invariant true
+
+//@ func filterExpiredCerts$1(key)
+//@   flag inline
+
+//@ func filterOrphanCerts(s, certsInMemory, keysInAgent)
+//@   flag inline
+//@   loop 1:
+//@     invariant publicKeys != nil && fresh(publicKeys) && srvOK(outer(s)) && certsInMemory == outer(s).certs
+//@     invariant certsNonNil(outer(s))
+//@     invariant keysWF(keysInAgent)
+//@     invariant keysWF(outer(inAgentKeys))
+//@     invariant arr(outer(inAgentKeys)) == arr(keysInAgent) && off(outer(inAgentKeys)) == off(keysInAgent) && len(outer(inAgentKeys)) <= len(keysInAgent)
+//@   loop 2:
+//@     invariant publicKeys != nil && srvOK(outer(s)) && certsInMemory == outer(s).certs
+//@     invariant certsNonNil(outer(s))
+//@     invariant keysWF(keysInAgent)
+//@     invariant keysWF(outer(inAgentKeys))
+//@     invariant arr(outer(inAgentKeys)) == arr(keysInAgent) && off(outer(inAgentKeys)) == off(keysInAgent) && len(outer(inAgentKeys)) <= len(keysInAgent)
+//@     invariant forall(h#bytes, h in dom(certsInMemory), entry(h in dom(certsInMemory)) && certsInMemory[h] == entry(certsInMemory[h]))
+
+//@ func filterExpiredCerts(s, certsInMemory, keysInAgent)
+//@   flag inline
+//@   loop 1:
+//@     invariant srvOK(outer(s)) && certsInMemory == outer(s).certs
+//@     invariant certsNonNil(outer(s))
+//@     invariant keysWF(keysInAgent)
+//@     invariant keysWF(outer(inAgentKeys))
+//@     invariant arr(outer(inAgentKeys)) == arr(keysInAgent) && off(outer(inAgentKeys)) == off(keysInAgent) && len(outer(inAgentKeys)) <= len(keysInAgent)
+//@     invariant forall(h#bytes, h in dom(certsInMemory), entry(h in dom(certsInMemory)) && certsInMemory[h] == entry(certsInMemory[h]))
+//@   loop 2:
+//@     invariant srvOK(outer(s)) && certsInMemory == outer(s).certs
+//@     invariant certsNonNil(outer(s))
+//@     invariant keysWF(keysInAgent)
+//@     invariant keysWF(outer(inAgentKeys))
+//@     invariant arr(outer(inAgentKeys)) == arr(keysInAgent) && off(outer(inAgentKeys)) == off(keysInAgent) && len(outer(inAgentKeys)) <= len(keysInAgent)
+//@     invariant forall(h#bytes, h in dom(certsInMemory), entry(h in dom(certsInMemory)) && certsInMemory[h] == entry(certsInMemory[h]))
 
 //@ func (*Server).remove(s, key)
 //@   flag logged
